@@ -367,11 +367,12 @@ Proof.
     rewrite cost_bind, cost_skip_.
     destruct (run (skip_ os) l5) as [[u l6]| | |]; cbn [after cost]; lia. }
   intros rhl l5 _ L5. destruct rhl as [hl|e]; [|cfin].
-  eapply (cost_bind_acc _ _ _ 1); [rewrite cost_len_; lia| |lia]. intros n2 l6 _ L6.
-  eapply (cost_bind_acc _ _ _ 0); [| |lia].
-  { destruct ml as [length|]; [|cfin].
-    destruct (length <? hl); [cfin|]. unfold usub. destruct (hl <=? length); cbn [bind cost]; [|lia].
-    destruct (n2 <? length - hl); cfin. }
+  eapply (cost_bind_acc _ _ _ 1); [| |lia].
+  { destruct ml as [length|].
+    - destruct (length <? hl); [cfin|]. unfold usub.
+      destruct (hl <=? length); cbn [bind]; [|cbn [cost]; lia].
+      clen. destruct (len l5 <? length - hl); cfin.
+    - clen. cfin. }
   intros rpl l7 _ L7. destruct rpl as [pl|e]; [|cfin].
   destruct (pl =? 0); [cfin|].
   cbn [bind bytes_ cost].
